@@ -96,7 +96,7 @@ class VCodeGen(CodeGen):
             info = self._register(kind='block', node=block, r_out=None, keep=False, stack=self.stack,
                                   effective_defeat=self.effective_defeat, n_arrays=len(self.allocated_arrays),
                                   loop=(li.break_label.label_name, li.continue_label.label_name,
-                                        getattr(self, 'v_loop_ap', None), getattr(self, 'v_loop_defeat', None)) if li else None,
+                                        getattr(self, 'v_loop_ap', None), getattr(self, 'v_loop_defeat', None), li.loop_defeat, li.restore_point) if li else None,
                                   local_vars=dict(self.local_vars))
             yield Opaque(info.ident)
             return
